@@ -43,6 +43,7 @@ func (p *Prop) Meta() simkit.Meta {
 }
 
 type obj struct {
+	wide   bool // values span the whole double range: squares overflow, so no Variance/StdDev
 	s      *stats.Sample
 	shXs   []float64 // shadow copy (harness-owned)
 	shWs   []float64
@@ -229,8 +230,8 @@ func (o *obj) exactLnMean() *big.Float {
 func (c *ctx) genXs(n int) ([]float64, string) {
 	g := c.g
 	xs := make([]float64, n)
-	fam := g.Pick(3, 3, 2, 2, 2)
-	name := []string{"plain", "offset", "ties", "ints", "geometric"}[fam]
+	fam := g.Pick(6, 6, 4, 4, 4, 1)
+	name := []string{"plain", "offset", "ties", "ints", "geometric", "wide-positive"}[fam]
 	switch fam {
 	case 0:
 		scale := math.Pow(10, float64(g.Range(-3, 6)))
@@ -275,6 +276,13 @@ func (c *ctx) genXs(n int) ([]float64, string) {
 		for i := range xs {
 			xs[i] = math.Pow(10, g.Uniform(-6, 12))
 		}
+	case 5:
+		// positive values over the whole double range: "any finite data". Only the
+		// statistics that involve no squares are queried on these (see query).
+		for i := range xs {
+			xs[i] = math.Pow(10, g.Uniform(-300, 300))
+		}
+		c.probe("wide_magnitude_data")
 	}
 	return xs, name
 }
@@ -293,7 +301,7 @@ func (c *ctx) create() {
 		n = g.BoundarySize(0, 200)
 	}
 	xs, fam := c.genXs(n)
-	o := &obj{s: &stats.Sample{Xs: xs}}
+	o := &obj{s: &stats.Sample{Xs: xs}, wide: fam == "wide-positive"}
 	o.wkind = g.Pick(3, 3, 2)
 	if o.wkind == 1 {
 		ws := make([]float64, n)
@@ -470,7 +478,7 @@ func (c *ctx) copyEv(k int) {
 		c.fail("copy", "Copy", "contents", "Copy is not equal to the original")
 		return
 	}
-	n := &obj{s: cp, wkind: o.wkind, nonpos: o.nonpos, acc: nil}
+	n := &obj{s: cp, wkind: o.wkind, nonpos: o.nonpos, acc: nil, wide: o.wide}
 	n.stale()
 	n.refresh()
 	if len(c.pool) >= 6 {
@@ -503,7 +511,9 @@ func (c *ctx) mutate(k int) {
 			o.s.Weights[i] = c.g.Uniform(0.01, 10)
 		}
 	} else {
-		if o.nonpos || c.g.Chance(1, 4) {
+		if o.wide {
+			o.s.Xs[i] = math.Pow(10, c.g.Uniform(-300, 300))
+		} else if o.nonpos || c.g.Chance(1, 4) {
 			o.s.Xs[i] = float64(c.g.Range(-3, 9))
 		} else {
 			o.s.Xs[i] = c.g.Uniform(0.001, 1000)
@@ -582,7 +592,7 @@ func (c *ctx) expand(k int) {
 	if xs == nil {
 		xs = []float64{}
 	}
-	n := &obj{s: &stats.Sample{Xs: xs}}
+	n := &obj{s: &stats.Sample{Xs: xs}, wide: o.wide}
 	n.stale()
 	n.refresh()
 	c.logf("obj%d expanded into repetitions (%d values)", k, len(xs))
@@ -650,6 +660,9 @@ func (c *ctx) query(k int) {
 	case 1, 2:
 		if weighted && n > 0 {
 			return // documented: not implemented for weighted samples
+		}
+		if o.wide {
+			return // squares of these values overflow: the variance is not representable
 		}
 		if !call(func() {
 			switch {
@@ -826,9 +839,23 @@ func (c *ctx) vecEv() {
 		}
 	case 3:
 		xs, _ := c.genXs(g.Range(0, 40))
-		shadow := append([]float64(nil), xs...)
 		a, b := float64(g.Range(-3, 3)), float64(g.Range(-3, 3))
 		f := func(x float64) float64 { return a*x + b }
+		if g.Chance(1, 3) {
+			// runs of equal values, including +0 next to -0 (equal under ==, different
+			// values), with a sign-sensitive pure f: a result may not be reused just
+			// because the argument compares equal to its neighbour
+			negz := math.Copysign(0, -1)
+			pat := []float64{0, negz, 0, 0, negz, negz, 2.5, 2.5}
+			at := 0
+			if len(xs) > 0 {
+				at = g.Intn(len(xs))
+			}
+			xs = append(append(append([]float64(nil), xs[:at]...), pat[g.Intn(4):]...), xs[at:]...)
+			f = func(x float64) float64 { return math.Copysign(3, x)*(1+x) + b }
+			c.probe("vec_map_signed_zero_run")
+		}
+		shadow := append([]float64(nil), xs...)
 		var m1, m2 []float64
 		if !c.try("vec.Map", "", func() { m1 = vec.Map(f, xs); m2 = vec.Vectorize(f)(xs) }) {
 			return
